@@ -1660,8 +1660,8 @@ func (in *Interp) callBuiltin(fr *frame, b *ssa.Builtin, args []Value) Value {
 				} else {
 					less = Ult(a.(*Term), x)
 				}
+				// less: a < res
 				if b.Name() == "max" {
-					less = BNot(BOr(less, Eq(a.(*Term), x)))
 					res = Ite(less, x, a.(*Term))
 				} else {
 					res = Ite(less, a.(*Term), x)
